@@ -300,6 +300,11 @@ func AnalyseShape(fn *ssa.Function, cfg ShapeConfig) ShapeResult {
 		if len(r.Results) == 0 {
 			continue
 		}
+		if !ssau.IsNamed(fn.Signature.Results().At(0).Type(), cfg.ModelingPath, "Mesh") {
+			// array function: the returned value as a whole (a φ of the make and the appends grown from it)
+			analyseResult(&res, fn, r, r.Results[0], cfg)
+			continue
+		}
 		for _, o := range valueOrigins(r.Results[0]) {
 			analyseResult(&res, fn, r, o, cfg)
 		}
